@@ -122,6 +122,12 @@ func (r *ascii85Reader) Read(p []byte) (n int, err error) {
 					r.k = 0
 				}
 				r.isEnd = true
+				if n == len(p) {
+					// The caller's buffer is full; the rest of the final
+					// group (if any) is in r.leftover.  Stop here, so that
+					// the end marker does not mask the leftover bytes.
+					return n, nil
+				}
 				continue
 			} else {
 				r.immediateError = errors.New("invalid character in ASCII85 stream")
